@@ -17,7 +17,7 @@ OFFSET2 = 10000
 
 def add_clip_vars(w: dict, rng: random.Random) -> None:
     """tagged variables of every fill kind on every grid kind, spatial dimensions in shuffled positions"""
-    CD.add_data_vars(w, rng, rich=True)
+    CD.add_data_vars(w, rng, rich=True, ksize=w.get("ksize"))
     specs = w["vars"]
     base = max(v["base"] for v in specs) + 500
     g = ["@0", "@1"] if len(W.kind_shape(w, "face")) == 2 else ["@0"]
@@ -138,6 +138,15 @@ def clip_worlds(tier: str, seed: int) -> list[dict]:
         w = W.counts_world("ugrid", nface=len(m["faces"]), nnode=len(m["nodes"]), nedge=len(m["edges"]))
         w["mesh"] = m
         w["enc"] = {"base": 1, "fill": "intfill", "supplied": sup, "edge_dim": "declared", "coords_as": "plain", "transposed": True}
+        out.append(w)
+    # round 13: a mesh whose layer dimension is exactly as long as its face dimension (and one as long as its node dimension):
+    # an axis found by its LENGTH instead of its name is the wrong one wherever the layer dimension comes first
+    for which in ("nface", "nnode"):
+        m = meshtabs.supplied_tables(W.mesh_from_squares(fam[1], shape="skew"), rng)
+        w = W.counts_world("ugrid", nface=len(m["faces"]), nnode=len(m["nodes"]), nedge=len(m["edges"]))
+        w["mesh"] = m
+        w["enc"] = {"base": 0, "fill": "intfill", "supplied": ["en"], "edge_dim": "declared", "coords_as": "coords"}
+        w["ksize"] = w[which]
         out.append(w)
     vias = ["memory", "file", "memory", "emsopen", "dask", "memory"]       # how the dataset being clipped is held (viafile.hold)
     for k, w in enumerate(out):
